@@ -424,7 +424,7 @@ class Variants(productmd.composeinfo.VariantBase):
     def deserialize_1_0(self, parser):
         if not parser.has_option("tree", "variants"):
             return []
-        variant_ids = [i for i in parser.get("tree", "variants").split(",")]
+        variant_ids = [i for i in parser.get("tree", "variants").split(",") if i]
         return variant_ids
 
 
